@@ -1303,61 +1303,143 @@ func c06CLI(c *Ctx) {
 		return
 	}
 	isSigCh := func(v ssa.Value) bool { return sameRoots(v, sigCh) }
-	// channels closed only after Engine.Wait returned (in a goroutine of this function)
-	waitedChans := map[ssa.Value]bool{}
-	for _, g := range fn.AnonFuncs {
-		var w ssa.Instruction
-		EachInstr(g, func(in ssa.Instruction) {
-			if IsCall(in, sEngineWait) {
-				w = in
-			}
-		})
-		if w == nil {
-			continue
-		}
-		EachInstr(g, func(in ssa.Instruction) {
-			if IsBuiltinCall(in, "close") && InstrDominates(w, in) {
-				for _, r := range Roots(CC(in).Args[0], false) {
-					waitedChans[r] = true
-				}
-			}
-		})
-	}
-	// such a channel must have no other close/send in the function
-	for ch := range waitedChans {
-		for _, g := range WithClosures(fn) {
+	// channels closed only after Engine.Wait returned (in a goroutine of the function that makes them)
+	waitedIn := func(f *ssa.Function) map[ssa.Value]bool {
+		waited := map[ssa.Value]bool{}
+		for _, g := range f.AnonFuncs {
+			var w ssa.Instruction
 			EachInstr(g, func(in ssa.Instruction) {
-				switch x := in.(type) {
-				case *ssa.Send:
-					if sameRoots(x.Chan, ch) {
-						delete(waitedChans, ch)
-					}
+				if IsCall(in, sEngineWait) {
+					w = in
 				}
-				if IsBuiltinCall(in, "close") && sameRoots(CC(in).Args[0], ch) {
-					var w ssa.Instruction
-					EachInstr(g, func(y ssa.Instruction) {
-						if IsCall(y, sEngineWait) {
-							w = y
-						}
-					})
-					if w == nil || !InstrDominates(w, in) {
-						delete(waitedChans, ch)
+			})
+			if w == nil {
+				continue
+			}
+			EachInstr(g, func(in ssa.Instruction) {
+				if IsBuiltinCall(in, "close") && InstrDominates(w, in) {
+					for _, r := range Roots(CC(in).Args[0], false) {
+						waited[r] = true
 					}
 				}
 			})
 		}
-	}
-	isWaitedRecv := func(st *ssa.SelectState) bool {
-		if st.Dir != types.RecvOnly {
-			return false
+		// such a channel must have no other close/send in the function
+		for ch := range waited {
+			for _, g := range WithClosures(f) {
+				EachInstr(g, func(in ssa.Instruction) {
+					switch x := in.(type) {
+					case *ssa.Send:
+						if sameRoots(x.Chan, ch) {
+							delete(waited, ch)
+						}
+					}
+					if IsBuiltinCall(in, "close") && sameRoots(CC(in).Args[0], ch) {
+						var w ssa.Instruction
+						EachInstr(g, func(y ssa.Instruction) {
+							if IsCall(y, sEngineWait) {
+								w = y
+							}
+						})
+						if w == nil || !InstrDominates(w, in) {
+							delete(waited, ch)
+						}
+					}
+				})
+			}
 		}
-		for ch := range waitedChans {
-			if sameRoots(st.Chan, ch) {
+		return waited
+	}
+	waitedMemo := map[*ssa.Function]map[ssa.Value]bool{}
+	waitedOf := func(f *ssa.Function) map[ssa.Value]bool {
+		if waitedMemo[f] == nil {
+			waitedMemo[f] = waitedIn(f)
+		}
+		return waitedMemo[f]
+	}
+	// the channel received from is such a channel of its function, or the result of a helper that returns one
+	isWaitedChan := func(f *ssa.Function, ch ssa.Value) bool {
+		for w := range waitedOf(f) {
+			if sameRoots(ch, w) {
+				return true
+			}
+		}
+		for _, r := range Roots(ch, false) {
+			cl, _ := CallOfValue(r)
+			if cl == nil || cl.Call.StaticCallee() == nil || PkgOf(cl.Call.StaticCallee()) != PkgOf(f) {
+				continue
+			}
+			h := cl.Call.StaticCallee()
+			n, all := 0, true
+			EachInstr(h, func(in ssa.Instruction) {
+				if ret, ok := in.(*ssa.Return); ok && len(ret.Results) == 1 {
+					n++
+					okRet := false
+					for w := range waitedOf(h) {
+						if sameRoots(ret.Results[0], w) {
+							okRet = true
+						}
+					}
+					if !okRet {
+						all = false
+					}
+				}
+			})
+			if n > 0 && all {
 				return true
 			}
 		}
 		return false
 	}
+	isWaitedRecv := func(st *ssa.SelectState) bool {
+		return st.Dir == types.RecvOnly && isWaitedChan(fn, st.Chan)
+	}
+	caseKind := func(f *ssa.Function, cs SelCase) string {
+		switch {
+		case isSigCh(cs.State.Chan):
+			return "signal"
+		case cs.State.Dir == types.RecvOnly && isWaitedChan(f, cs.State.Chan):
+			return "waited"
+		}
+		for _, r := range Roots(cs.State.Chan, false) {
+			if cl, _ := CallOfValue(r); cl != nil && MatchCC(&cl.Call, Spec{"time", "", "After"}) {
+				return "timeout"
+			}
+			if fv, _ := FieldOf(r); fv != nil && fv.Name() == "C" {
+				return "timeout"
+			}
+		}
+		return "other"
+	}
+	// awaitsEngine: every normal return of the helper comes after Engine.Wait() or after a receive from a waited channel
+	var awaitsEngine func(h *ssa.Function, depth int) bool
+	awaitsEngine = func(h *ssa.Function, depth int) bool {
+		if h == nil || len(h.Blocks) == 0 || depth > 2 {
+			return false
+		}
+		waitedBodies := map[*ssa.BasicBlock]bool{}
+		for _, sl := range Selects(h) {
+			for _, cs := range SelectCases(sl) {
+				if cs.State != nil && cs.Body != nil && caseKind(h, cs) == "waited" {
+					waitedBodies[cs.Body] = true
+				}
+			}
+		}
+		iv := PathQuery{Fn: h, Shallow: true, Exit: func(b *ssa.BasicBlock) bool { return ExitOf(b) == ExitReturn }, Weight: func(in ssa.Instruction) (int, int) {
+			if IsCall(in, sEngineWait) {
+				return 1, 1
+			}
+			if waitedBodies[in.Block()] && in == in.Block().Instrs[0] {
+				return 1, 1
+			}
+			if isProcessExit(in) {
+				return 1, 1 // the path does not return
+			}
+			return 0, 0
+		}}.Count()
+		return iv.NoPath || iv.Min >= 1
+	}
+	_ = isWaitedRecv
 	// first-level signal cases
 	var sigBodies []*ssa.BasicBlock
 	recvOf := map[*ssa.BasicBlock]ssa.Value{}
@@ -1371,22 +1453,7 @@ func c06CLI(c *Ctx) {
 			if cs.State == nil || cs.State.Dir != types.RecvOnly {
 				continue
 			}
-			kind := "other"
-			switch {
-			case isSigCh(cs.State.Chan):
-				kind = "signal"
-			case isWaitedRecv(cs.State):
-				kind = "waited"
-			default:
-				for _, r := range Roots(cs.State.Chan, false) {
-					if cl, _ := CallOfValue(r); cl != nil && MatchCC(&cl.Call, Spec{"time", "", "After"}) {
-						kind = "timeout"
-					}
-					if fv, _ := FieldOf(r); fv != nil && fv.Name() == "C" {
-						kind = "timeout"
-					}
-				}
-			}
+			kind := caseKind(fn, cs)
 			inner = append(inner, caseInfo{cs.Body, kind})
 			if kind == "signal" {
 				sigBodies = append(sigBodies, cs.Body)
@@ -1426,8 +1493,15 @@ func c06CLI(c *Ctx) {
 			why := ""
 			// (a) preceded by Engine.Wait
 			EachInstr(fn, func(w ssa.Instruction) {
-				if IsCall(w, sEngineWait) && InstrDominates(w, in) && first.Dominates(w.Block()) {
+				if !InstrDominates(w, in) || !first.Dominates(w.Block()) || w == in {
+					return
+				}
+				if IsCall(w, sEngineWait) {
 					why = "preceded by Engine.Wait()"
+				} else if cc := CC(w); cc != nil && cc.StaticCallee() != nil && PkgOf(cc.StaticCallee()) == PkgOf(fn) && awaitsEngine(cc.StaticCallee(), 0) {
+					if _, isGo := w.(*ssa.Go); !isGo {
+						why = "preceded by " + cc.StaticCallee().Name() + "(), which returns only after the engine's tasks were awaited"
+					}
 				}
 			})
 			for _, ci := range inner {
@@ -1463,6 +1537,55 @@ func c06CLI(c *Ctx) {
 			}
 			c.Check(why != "", "O6.7", fmt.Sprintf("%s:exit-after-signal-awaits-engine-tasks#%d", key, n), in.Pos(),
 				"a process exit after a signal must be the timeout, a second signal, or come after Engine.Wait(): otherwise aggregators are killed while still draining/flushing ("+why+")")
+		}
+	}
+	// exits inside the helpers called after the signal: justified by the helper's own select cases
+	seenH := map[*ssa.Function]bool{}
+	for _, b := range fn.Blocks {
+		if !first.Dominates(b) {
+			continue
+		}
+		for _, in := range b.Instrs {
+			cc := CC(in)
+			if cc == nil || cc.StaticCallee() == nil || PkgOf(cc.StaticCallee()) != PkgOf(fn) || seenH[cc.StaticCallee()] {
+				continue
+			}
+			h := cc.StaticCallee()
+			seenH[h] = true
+			var hCases []caseInfo
+			for _, sl := range Selects(h) {
+				for _, cs := range SelectCases(sl) {
+					if cs.State != nil && cs.State.Dir == types.RecvOnly && cs.Body != nil {
+						hCases = append(hCases, caseInfo{cs.Body, caseKind(h, cs)})
+					}
+				}
+			}
+			EachInstr(h, func(x ssa.Instruction) {
+				if !isProcessExit(x) {
+					return
+				}
+				n++
+				why := ""
+				EachInstr(h, func(w ssa.Instruction) {
+					if IsCall(w, sEngineWait) && InstrDominates(w, x) {
+						why = "preceded by Engine.Wait()"
+					}
+				})
+				for _, ci := range hCases {
+					if ci.body.Dominates(x.Block()) && why == "" {
+						switch ci.kind {
+						case "waited":
+							why = "reached only after a receive from a channel closed after Engine.Wait() returned"
+						case "timeout":
+							why = "interrupt timeout (named escape hatch)"
+						case "signal":
+							why = "second signal (named escape hatch)"
+						}
+					}
+				}
+				c.Check(why != "", "O6.7", fmt.Sprintf("%s:exit-after-signal-awaits-engine-tasks#%d", fk(h), n), x.Pos(),
+					"a process exit after a signal must be the timeout, a second signal, or come after Engine.Wait(): otherwise aggregators are killed while still draining/flushing ("+why+")")
+			})
 		}
 	}
 	c.Floor("O6.7", "process exits reachable after a signal in awaitPandoraTermination", n, 4)
